@@ -22,6 +22,8 @@ def run_native(shard_d, args):
         value = override(**args) if override else fn(**args)
     except Exception as exc:  # pylint: disable=broad-except
         etype, site = api.raise_site(exc)
+        if isinstance(exc, api.Escaped):
+            etype, site = exc.etype, exc.site_fn
         return {'outcome': 'exception', 'type': etype, 'site': [etype, site], 'message': str(exc)[:300],
                 'trace': api.format_exc(exc), 'notes': list(api.NOTES)}
     return {'outcome': 'true' if value else 'false', 'reached': api.REACHED, 'notes': list(api.NOTES)}
